@@ -59,7 +59,19 @@ func exprString(e ast.Expr) string {
 	case *ast.SelectorExpr:
 		return exprString(t.X) + "." + t.Sel.Name
 	case *ast.CallExpr:
-		return exprString(t.Fun) + "()"
+		var args []string
+		for _, a := range t.Args {
+			args = append(args, exprString(a))
+		}
+		return exprString(t.Fun) + "(" + strings.Join(args, ",") + ")"
+	case *ast.IndexExpr:
+		return exprString(t.X)
+	case *ast.IndexListExpr:
+		return exprString(t.X)
+	case *ast.UnaryExpr:
+		return t.Op.String() + exprString(t.X)
+	case *ast.CompositeLit:
+		return typeName(t.Type) + "{}"
 	case *ast.StarExpr:
 		return "*" + exprString(t.X)
 	case *ast.BasicLit:
@@ -106,6 +118,7 @@ type site struct {
 	label string
 	typ   string
 	keys  []string
+	rhs   []string // source text of the value of each key (selector chains, calls with arguments)
 }
 
 // literalSites lists, in source order, every keyed composite literal of fn with
@@ -132,16 +145,17 @@ func literalSites(fn *ast.FuncDecl, prefix string) []site {
 			}
 			return
 		case *ast.CompositeLit:
-			var keys []string
+			var keys, rhs []string
 			keyed := false
 			for _, e := range t.Elts {
 				if kv, ok := e.(*ast.KeyValueExpr); ok {
 					keyed = true
 					keys = append(keys, exprString(kv.Key))
+					rhs = append(rhs, exprString(kv.Value))
 				}
 			}
 			if keyed && typeName(t.Type) != "" {
-				out = append(out, site{label: strings.Join(labels, "/"), typ: typeName(t.Type), keys: keys})
+				out = append(out, site{label: strings.Join(labels, "/"), typ: typeName(t.Type), keys: keys, rhs: rhs})
 			}
 			for _, e := range t.Elts {
 				if kv, ok := e.(*ast.KeyValueExpr); ok {
@@ -155,7 +169,15 @@ func literalSites(fn *ast.FuncDecl, prefix string) []site {
 			if t.Tok == token.ASSIGN {
 				for _, l := range t.Lhs {
 					if se, ok := l.(*ast.SelectorExpr); ok {
-						out = append(out, site{label: strings.Join(labels, "/"), typ: "assign", keys: []string{se.Sel.Name}})
+						r := "?"
+						if len(t.Rhs) == len(t.Lhs) {
+							for i := range t.Lhs {
+								if t.Lhs[i] == l {
+									r = exprString(t.Rhs[i])
+								}
+							}
+						}
+						out = append(out, site{label: strings.Join(labels, "/"), typ: "assign", keys: []string{se.Sel.Name}, rhs: []string{r}})
 					}
 				}
 			}
@@ -197,6 +219,23 @@ func sitesTerm(name string, sites []site) string {
 			sb.WriteString(";\n")
 		}
 		fmt.Fprintf(&sb, "  (%s, %s, %s)", gen.CoqString(s.label), gen.CoqString(s.typ), coqStrList(s.keys))
+	}
+	sb.WriteString("\n].\n")
+	return sb.String()
+}
+
+func rhsTerm(name string, sites []site) string {
+	var sb strings.Builder
+	fmt.Fprintf(&sb, "Definition %s : list (string * string * list (string * string)) := [\n", name)
+	for i, s := range sites {
+		if i > 0 {
+			sb.WriteString(";\n")
+		}
+		var kv []string
+		for k := range s.keys {
+			kv = append(kv, fmt.Sprintf("(%s, %s)", gen.CoqString(s.keys[k]), gen.CoqString(s.rhs[k])))
+		}
+		fmt.Fprintf(&sb, "  (%s, %s, [%s])", gen.CoqString(s.label), gen.CoqString(s.typ), strings.Join(kv, "; "))
 	}
 	sb.WriteString("\n].\n")
 	return sb.String()
@@ -338,6 +377,9 @@ func genReflect(repo string) (string, error) {
 	sb.WriteString(sitesTerm("export_sites", exportSites))
 	sb.WriteString("(* the same for the import: schemaFromDesc, objectSchemaFromDesc, oneofSchemaFromDesc, enumSchemaFromDesc,\n   objectPropertyFromDesc, lib/j5schema/schema_from_desc.go (\"assign\" = a later `x.K = ...`) *)\n")
 	sb.WriteString(sitesTerm("import_sites", importSites))
+	sb.WriteString("(* the same sites with the source text of each value *)\n")
+	sb.WriteString(rhsTerm("export_rhs", exportSites))
+	sb.WriteString(rhsTerm("import_rhs", importSites))
 
 	// intKinds / floatKinds map keys
 	for _, vn := range []string{"intKinds", "floatKinds"} {
